@@ -31,7 +31,7 @@ if [ "$applies" != no ]; then
   cp "$D/demo.rs" tests/zz_demo.rs
   if timeout 600 cargo test --offline $FEAT --test zz_demo > /tmp/cw-$ID-with.log 2>&1; then demo_with=pass; else demo_with=fail; fi
   rm -f tests/zz_demo.rs
-  git checkout -- . ; git clean -fdq
+  git reset -q --hard; git clean -fdq
   cp "$D/demo.rs" tests/zz_demo.rs
   if timeout 600 cargo test --offline $FEAT --test zz_demo > /tmp/cw-$ID-without.log 2>&1; then demo_without=pass; else demo_without=fail; fi
   rm -f tests/zz_demo.rs
